@@ -303,10 +303,7 @@ func main() {
 
 	// non-cubic sizes shared with the C14 driver: X<Y, X>Z, all different
 	// (a block has at least 2 sub-blocks per axis; the quick tier takes the smallest such shapes)
-	ncSizes := [][3]int{{2, 3, 2}, {3, 2, 2}, {2, 2, 3}, {2, 3, 4}, {4, 3, 2}}
-	if o.Thorough() {
-		ncSizes = append(ncSizes, [][3]int{{2, 4, 2}, {4, 2, 2}, {2, 2, 4}, {2, 3, 4}, {4, 3, 2}}...)
-	}
+	ncSizes := blk.NonCubic(o.Thorough())
 	// Downres onto a non-cubic receiver (octant offsets differ per axis)
 	for k, g := range [][3]int{ncSizes[int(o.Seed)%3], ncSizes[3+int(o.Seed)%2]} {
 		fg := [6]int{0, 0, 0, 8 * g[0], 8 * g[1], 8 * g[2]}
@@ -328,7 +325,7 @@ func main() {
 	nRand := 3 // quick tier: random chains on the three smallest non-cubic shapes
 	if o.Thorough() {
 		nChains = 150
-		nRand = len(ncSizes)
+		nRand = 8
 	}
 	if o.N > 0 {
 		nChains = o.N
